@@ -44,7 +44,7 @@ theorem decodeFloats_encodeFloats (P : Params) (d : Digits) (fails : Bool) (vs :
         rcases h with h | h
         · cases h
         · simp [hc, decodeFloats, h]
-      | num =>
+      | num t =>
         rcases h with h | h
         · cases h
         · simp [hc, decodeFloats, h]
